@@ -132,7 +132,7 @@ def write_evidence(prop, tier, results, wall, violations, known_hits, explanatio
         'wall_s': round(wall, 3),
         'violations': violations,
     }
-    d = os.path.join(VERIF, 'evidence')
+    d = os.environ.get('VERIF_EVIDENCE_DIR') or os.path.join(VERIF, 'evidence')
     os.makedirs(d, exist_ok=True)
     with open(os.path.join(d, prop + '.json'), 'w') as fh:
         json.dump(ev, fh, indent=1, sort_keys=True, default=str)
@@ -140,7 +140,7 @@ def write_evidence(prop, tier, results, wall, violations, known_hits, explanatio
 
 
 def write_replay(prop, n, finding):
-    d = os.path.join(VERIF, 'replay')
+    d = os.environ.get('VERIF_REPLAY_DIR') or os.path.join(VERIF, 'replay')
     os.makedirs(d, exist_ok=True)
     path = os.path.join(d, '%s-%d.json' % (prop, n))
     with open(path, 'w') as fh:
